@@ -32,13 +32,16 @@ def _cand(c):
     return {"val": qa.val_json(c.resolution), "prod": [str(p) for p in c.production], "_score": c.score}
 
 
-def run_timed(text, deadline, scorer_kind="dummy", depth=10, entry="gen"):
+def run_timed(text, deadline, scorer_kind="dummy", depth=10, entry="gen", tick=1.0):
     """One run of the real parser under a virtual clock with timeout=deadline (0 = none).
     Returns (events, candidates, clock reads, raised, maxlen)."""
     import ctparse.timers as tm
     raw = []
     ts = datetime(*TS)
     clock = qa.VirtualClock()
+    clock.tick = tick
+    if tick != 1.0 and deadline:
+        deadline = (deadline + 0.5) * tick      # same expiry point as <deadline> unit ticks, in another unit of time
     orig_timeout = qa.CTP.timeout_
     orig_apply = qa.PartialParse.apply_rule
     orig_filter = qa.PartialParse._filter_rules
@@ -46,14 +49,15 @@ def run_timed(text, deadline, scorer_kind="dummy", depth=10, entry="gen"):
 
     def my_timeout(t):
         f = orig_timeout(t)
+        r0 = clock.now            # the deadline function has just read the clock: its start time, in ticks
 
         def g():
             try:
                 f()
             except tm.CTParseTimeoutError:
-                raw.append(("Chk", 1))
+                raw.append(("Chk", 1, clock.now - r0))
                 raise
-            raw.append(("Chk", 0))
+            raw.append(("Chk", 0, clock.now - r0))
         return g
 
     def my_apply(self, *a, **k):
@@ -97,7 +101,7 @@ def run_timed(text, deadline, scorer_kind="dummy", depth=10, entry="gen"):
             else:
                 events.append({"ev": kind, "n": 1})
         elif r[0] == "Chk":
-            events.append({"ev": "Chk", "expired": r[1]})
+            events.append({"ev": "Chk", "expired": r[1], "el": r[2]})
         else:
             events.append({"ev": "Y"})
     events.append({"ev": "End", "raised": raised})
@@ -106,9 +110,10 @@ def run_timed(text, deadline, scorer_kind="dummy", depth=10, entry="gen"):
 
 def obs_deadline(case):
     text, T = case["text"], case["deadline"]
-    ev, out, reads, raised, L, _ = run_timed(text, T, case.get("scorer", "dummy"), case.get("depth", 10))
+    tick = case.get("tick", 1.0)
+    ev, out, reads, raised, L, _ = run_timed(text, T, case.get("scorer", "dummy"), case.get("depth", 10), tick=tick)
     _, full, _, _, L2, _ = run_timed(text, 0, case.get("scorer", "dummy"), case.get("depth", 10))
-    _, _, _, raised2, _, single = run_timed(text, T, case.get("scorer", "dummy"), case.get("depth", 10), entry="single")
+    _, _, _, raised2, _, single = run_timed(text, T, case.get("scorer", "dummy"), case.get("depth", 10), entry="single", tick=tick)
     sj = {"val": {"k": "F"}, "prod": [], "_score": None} if (single is None or single.resolution is None) else _cand(single)
     allc = out + full + [sj]
     scores = sorted({c["_score"] for c in allc if c["_score"] is not None})
@@ -156,7 +161,7 @@ def judge_deadline(ctx, name, cases):
     ctx.evaluations += len(obs)
     nrej = 0
     for i, case in enumerate(owner, 1):
-        ctx.nontrivial.add((name, case["text"], case["deadline"], case.get("scorer"), case.get("depth")))
+        ctx.nontrivial.add((name, case["text"], case["deadline"], case.get("scorer"), case.get("depth"), case.get("tick")))
         if i in rej or i not in acc:
             nrej += 1
             clause = (rej.get(i) or ["not-consumed"])[0]
@@ -168,14 +173,14 @@ def judge_deadline(ctx, name, cases):
     # and sequence enumeration would pass every clause trivially; that happened once, see DESIGN.md section 8)
     per = {}
     for case, o in zip(owner, obs):
-        key = (case["text"], case.get("scorer"), case.get("depth"))
+        key = (case["text"], case.get("scorer"), case.get("depth"), case.get("tick"))
         st = per.setdefault(key, {"full": len(o["full"]), "proper": 0, "expired": 0})
         if case["deadline"] and any(e["ev"] == "Chk" and e["expired"] for e in o["ev"]):
             st["expired"] += 1
             if 0 < len(o["out"]) < len(o["full"]):
                 st["proper"] += 1
     hollow = [k for k, st in per.items() if st["full"] >= 2 and st["expired"] and not st["proper"]]
-    if hollow:
+    if hollow and not nrej and not ctx.violations:
         raise MachineryError("expiry points never cut a stream in the middle for %r: the enumeration does not reach the production loop" % (hollow[:3],))
     ctx.stage_counts[name] = {"cases": len(cases), "rejected": nrej,
                               "inputs_with_mid_stream_expiry": sum(1 for st in per.values() if st["proper"]),
@@ -224,6 +229,12 @@ def run(ctx):
                          depths=(10,) if ctx.quick else (10, 0))
     if ctx.quick:
         cases += expiry_cases(["8 8 8 8"], True, rnd)
+    # the unit of time must not matter: the same expiry points with a tick of a picosecond, 2**-40 s, an hour
+    # (a positive timeout is a limit however small; a huge one must not overflow)
+    for tick in (1e-12, 2.0 ** -40, 3600.0, 1e300):
+        for c in expiry_cases(["8", "tomorrow 8pm", "monday"], True, rnd):
+            if c["deadline"]:
+                cases.append(dict(c, tick=tick))
     judge_deadline(ctx, "real-deadline-traces", cases)
 
 
